@@ -563,6 +563,7 @@ func (s *Store[K, V]) removeEntry(entry *Entry[K, V], reason RemoveReason) {
 	if reason == EXPIRED {
 		// entry might updated already
 		// update expire filed are protected by shard mutex
+		verifExpireYield(entry)
 		if entry.expire.Load() > s.timerwheel.clock.NowNano() {
 			return
 		}
@@ -590,6 +591,7 @@ func (s *Store[K, V]) removeEntry(entry *Entry[K, V], reason RemoveReason) {
 					reason: reason,
 					shard:  shard,
 				}:
+					verifSecondaryEnqueued()
 					return
 				default:
 				}
@@ -724,6 +726,9 @@ func (s *Store[K, V]) drainWrite() {
 }
 
 func (s *Store[K, V]) maintenance() {
+	if verifNoMaintenance() {
+		return
+	}
 	go func() {
 		s.policyMu.Lock()
 		s.maintenanceTicker = time.NewTicker(time.Second)
@@ -744,6 +749,7 @@ func (s *Store[K, V]) maintenance() {
 				s.timerwheel.advance(0, s.removeEntry)
 				s.maintenanceTicker.Reset(time.Second)
 				s.policyMu.Unlock()
+				verifTickDone()
 			}
 		}
 	}()
@@ -918,6 +924,7 @@ func (s *Store[K, V]) processSecondary() {
 			item.shard.mu.RUnlock(tk)
 			if err != nil {
 				s.secondaryCache.HandleAsyncError(err)
+				verifSecondaryProcessed()
 				continue
 			}
 			if item.reason == EVICTED {
@@ -933,6 +940,7 @@ func (s *Store[K, V]) processSecondary() {
 		} else {
 			item.shard.mu.RUnlock(tk)
 		}
+		verifSecondaryProcessed()
 	}
 }
 
